@@ -56,6 +56,19 @@ func injCatalogue(seed int64, nSoup int) []injection {
 	} {
 		note(n.id, n.text, "either", "parse")
 	}
+	// regular expressions whose text does not survive naive case handling, read before and after the case rule changes
+	for _, n := range []struct{ id, re string }{{"quote", `/\QA.B\E/`}, {"named_group", `/(?P<Name>A)/`}, {"class_lu", `/\p{Lu}x/`}, {"upper_escapes", `/\S\W\D/`}, {"flags", `/(?U)A+/`}} {
+		note("skipre_"+n.id, ":skip "+n.re, "either", "parse")
+		note("skipre_"+n.id+"_then_caseoff", ":skip "+n.re+"\n:case:off", "either", "parse")
+		note("skipre_"+n.id+"_after_caseoff", ":case:off\n:skip "+n.re, "either", "parse")
+		note("skipre_"+n.id+"_case_flipflop", ":case:off\n:skip "+n.re+"\n:case\n:case:off", "either", "parse")
+	}
+	// separators other than the ASCII blank
+	for _, n := range []struct{ id, text string }{{"lit_nbsp", ":literal A\u00a0\"x\""}, {"lit_vtab", ":literal A\v7"}, {"lit_emspace", ":literal\u2003A\u20037"},
+		{"map_nbsp", ":map A\u00a0B"}, {"skip_nbsp", ":skip\u00a0A"}, {"conv_nbsp", ":conv CvOK\u00a0A"}, {"style_nbsp", ":style\u00a0arg"}, {"recv_nbsp", ":recv\u00a0x"},
+		{"lit_tab", ":literal A\t7"}, {"lit_two_blanks", ":literal  A   7"}, {"lit_trailing_nbsp", ":literal A 7\u00a0"}} {
+		note("sep_"+n.id, n.text, "either", "parse")
+	}
 	note("reverse_without_arg_style", ":reverse", "reject", "parse")
 	note("conv_missing_func", ":conv NoSuchFunc A", "reject", "resolve")
 	note("pre_missing_func", ":preprocess NoSuchFunc", "reject", "parse")
@@ -185,6 +198,12 @@ func injCatalogue(seed int64, nSoup int) []injection {
 	field := func(id, sf, df string) {
 		c = append(c, injection{ID: "field_" + id, Stage: "build", Must: "either", Pos: "none", Slot: "field", SrcField: sf, DstField: df})
 	}
+	// conversions to and from predeclared / package-less types under :typecast
+	for _, n := range []struct{ id, sf, df string }{{"perror", "E *MyE", "E *error"}, {"error_from_iface", "E MyE", "E error"}, {"perror_rev", "E *error", "E *MyE"},
+		{"pany", "E *int", "E *interface{}"}, {"named_error_slice", "E []MyE", "E []error"}} {
+		c = append(c, injection{ID: "typecast_" + n.id, Stage: "build", Must: "either", Pos: "none", Slot: "field", SrcField: n.sf, DstField: n.df, Note: ":typecast", Solo: true,
+			Decls: "type MyE interface{ Error() string }\n"})
+	}
 	field("error_both", "E error", "E error")
 	field("error_dst_only", "", "E error")
 	field("iface", "I interface{}", "I interface{}")
@@ -213,7 +232,7 @@ func injCatalogue(seed int64, nSoup int) []injection {
 			Solo: f.id == "empty_interface" || f.id == "only_comments"})
 	}
 	// byte soup in notation position
-	alphabet := []string{":", "$", "/", "(", ")", ".", "\\", "[", "A", "map", "skip", "conv", " ", "*", "\""}
+	alphabet := []string{":", "$", "/", "(", ")", ".", "\\", "[", "A", "map", "skip", "conv", "literal", " ", "*", "\"", "\u00a0", "\v", "\u2003"}
 	rng := rand.New(rand.NewSource(seed))
 	seen := map[string]bool{}
 	for len(seen) < nSoup {
@@ -310,7 +329,9 @@ func c14Render(injs []injection) (files map[string]string, noteLine, methodLine 
 		w("\t// :typecast\n\tG1(*BS) *BD\n\tG2(*BS) (*BD, error)\n")
 		if note != "" {
 			noteLine = line
-			w("\t// " + note + "\n")
+			for _, l := range strings.Split(note, "\n") {
+				w("\t// " + l + "\n")
+			}
 		}
 		methodLine = line
 		w("\t" + method + "\n")
@@ -470,7 +491,7 @@ func C14(c *core.Ctx) {
 				case i.IntfNote != "":
 					parts = append(parts, fmt.Sprintf("%s[interface doc: %s; method: %s]", i.ID, strings.ReplaceAll(i.IntfNote, "\n", " | "), i.Note))
 				case i.Note != "":
-					parts = append(parts, fmt.Sprintf("%s[// %s]", i.ID, i.Note))
+					parts = append(parts, fmt.Sprintf("%s[// %s]", i.ID, strings.ReplaceAll(i.Note, "\n", " | ")))
 				case i.Method != "":
 					parts = append(parts, fmt.Sprintf("%s[%s]", i.ID, i.Method))
 				case i.DstField != "":
@@ -525,7 +546,7 @@ func C14(c *core.Ctx) {
 				if m != nil && filepath.Base(m[1]) == "setup.go" {
 					ln, _ := strconv.Atoi(m[2])
 					// the offending item: the notation, its method, or the interface declaration
-					if (r.noteLine != 0 && ln == r.noteLine) || ln == r.methodLine || ln == 5 {
+					if (r.noteLine != 0 && ln >= r.noteLine && ln < r.methodLine) || ln == r.methodLine || ln == 5 {
 						ok = true
 					}
 					// notations of the interface doc: the notation itself, the interface, or a method that inherits it
